@@ -187,8 +187,9 @@ def runLeaf (env : Env) : Body → Option (Msg → M Msg)
 /-- `protocol_20.handle_presentation` before its `super()` call: forget the request marker. -/
 def prePresentation20 (m : Msg) : M Unit :=
   modifySt fun s =>
-    let k : Key := (m.node, m.child, Gen.iPresentation)
-    if s.ibuf.has k then { s with ibuf := s.ibuf.erase k } else s
+    if s.ibuf.has (m.node, m.child, Gen.iPresentation) then
+      { s with ibuf := s.ibuf.erase (m.node, m.child, Gen.iPresentation) }
+    else s
 
 def runPre : Body → Msg → M Unit
   | .presentation20 => prePresentation20
